@@ -164,7 +164,8 @@ class C17Monitor:
                 exp = wmean([m.get_fundamental_price(t) for m in ms], sh)
                 res.count("fundamental_index_checked")
                 for name, got in (("get_fundamental_price", im.get_fundamental_price(t)),
-                                  ("get_fundamental_index", im.get_fundamental_index(t))):
+                                  ("get_fundamental_index", im.get_fundamental_index(t)),
+                                  ("compute_fundamental_index", im.compute_fundamental_index(t))):
                     if not close(got, exp):
                         res.violation("fundamental", "index-fundamental-not-share-weighted-mean-of-component-fundamentals",
                                       {"index": im.name, "time": t, "getter": name, "observed": got, "expected": exp,
@@ -184,7 +185,8 @@ class C17Monitor:
                 vals = [c.get_market_price(t) for c in ms]
                 exp = wmean(vals, sh)
                 res.count("index_values_checked")
-                for name, f in (("get_index", im.get_index), ("get_market_index", im.get_market_index)):
+                for name, f in (("get_index", im.get_index), ("get_market_index", im.get_market_index),
+                                ("compute_market_index", im.compute_market_index)):
                     got = f(t)
                     if not close(got, exp):
                         res.violation("index", "index-value-not-share-weighted-mean-of-component-prices",
